@@ -341,7 +341,7 @@ Definition contrib (sp : nat -> ev) (e : nat) (x : entry) : list pyval :=
         | Some (HG ys _ gr) =>
             match nth_error ys k with
             | Some (_, y) => nonnone y
-            | None => if Nat.eqb k (length ys) && gr then [PErr] else []
+            | None => if gr then [PErr] else []
             end
         | _ => []
         end
@@ -353,7 +353,19 @@ Definition contrib (sp : nat -> ev) (e : nat) (x : entry) : list pyval :=
 Definition produced (sp : nat -> ev) (e : nat) (lg : list entry) : list pyval :=
   flat_map (contrib sp e) (rev lg).
 
-Definition count_err (l : list pyval) : nat := length (filter is_err l).
+(* entry x records the activity of a handler of e that ends by raising *)
+Definition raises (sp : nat -> ev) (e : nat) (x : entry) : bool :=
+  match x with
+  | LH e' i => Nat.eqb e' e && match nth_error (ev_hs (sp e)) i with
+                               | Some (HP _ RRaise) => true | _ => false end
+  | LG e' i k => Nat.eqb e' e && match nth_error (ev_hs (sp e)) i with
+                                 | Some (HG ys _ gr) => match nth_error ys k with Some _ => false | None => gr end
+                                 | _ => false end
+  | _ => false
+  end.
+
+(* number of handlers of e that have raised so far *)
+Definition nraised (sp : nat -> ev) (e : nat) (lg : list entry) : nat := length (filter (raises sp e) lg).
 
 Fixpoint count_der (k : dkind) (e : nat) (l : list entry) : nat :=
   match l with
